@@ -272,6 +272,7 @@ func faultTable() []faultCase {
 	add("Defer/interface-method", "l := host.NewLogger()\ndefer l.Logf(\"%d\", 1)\ndefer l.Count()\ndefer l.Count([]int{1}...)", "^nil$")
 	add("Defer/interface-method-nil-interface", "var l host.Logger\ndefer l.Count(1)", pe+"runtime error: invalid memory address or nil pointer dereference$")
 	add("CallNative/callback-with-escaping-result", "r := 0\nhost.Call(func() { r = func() (n int) { defer func() { n *= 2 }(); n = 21; return }() })\nf := func() (n int) { p := &n; *p = 4; return }\ng := f\nfunc() { _ = f }()\npanic(r*10 + g() + f())", pe+"428$")
+	add("CallNative/panic-recovered-into-named-result", "f := func() (n int, s string) {\n\tdefer func() {\n\t\tif r := recover(); r != nil {\n\t\t\tn, s = 7, \"rec\"\n\t\t}\n\t}()\n\thost.PanicString()\n\treturn 1, \"no\"\n}\nn, s := f()\nfs := []func(){func() { panic(\"elem\") }}\ng := func() (k int) {\n\tdefer func() {\n\t\tif recover() != nil {\n\t\t\tk = 30\n\t\t}\n\t}()\n\th := fs[0]\n\th()\n\treturn 2\n}\npanic(s + string(rune('0'+n)) + string(rune('0'+g()/10)))", pe+"rec73$")
 	add("CallNative/panic-string", "host.PanicString()", pe+"native panic$")
 	add("CallNative/panic-error", "host.PanicError()", pe+"native error$")
 	add("CallNative/panic-int", "host.PanicInt()", pe+"7$")
